@@ -7,7 +7,7 @@ export GOFLAGS=-mod=mod GOPROXY=off GOSUMDB=off GOTOOLCHAIN=local
 SNAP=$(mktemp -d /tmp/verifsnap.XXXXXX)
 git -C /verif archive HEAD | tar -x -C $SNAP
 mkdir -p $SNAP/bin && (cd $SNAP/engine && go build -o $SNAP/bin/stfsvc .) || exit 2
-ids="$@"; [ -z "$ids" ] && ids=$(ls /verif/seeded)
+ids="$@"; [ -z "$ids" ] && ids=$(ls /verif/seeded | grep -v "^_")
 props=$(python3 -c "import json;print(' '.join(c['property_id'] for c in json.load(open('$SNAP/MANIFEST.json'))['checks']))")
 for id in $ids; do
   d=/verif/seeded/$id
